@@ -109,32 +109,12 @@ def run(prog, rep):
               f"tokenizer accepts {sorted(found_longs)}, README documents {sorted(longs or [])}")
     rep.floor("C08-R1", 5)
     # ---- R2 constants
-    term_fn = None
-    peng = terms.Engine(prog, inline=False)
-    for f in prog.lib_fns():
-        if f.path.startswith("preprocessing::parser::"):
-            fs = peng.summary(f)
-            if any(x.kind == "call" and x.is_call_to("mk_constant") for x in fs.sites):
-                term_fn = (f, fs)
+    term_fn, table = c05.parser_constants(prog)
     if term_fn is None or consts is None:
         rep.unresolved("C08-R2", "constants", "", "terminal level or README constants list not found")
     else:
         f, fs = term_fn
         rep.functions.add(f.qual)
-        table = {True: set(), False: set()}
-        # the return value is a decision tree over string comparisons
-        for r in fs.returns:
-            for y in [r[0]] + list(subterms(r[0])):
-                if y[0] == "ite":
-                    strs = {z[3][1] for z in [y[1]] + list(subterms(y[1])) if z[0] == "bin" and z[1] == "==" and z[3][0] == "lit" and isinstance(z[3][1], str)}
-                    strs |= {z[2][1] for z in [y[1]] + list(subterms(y[1])) if z[0] == "bin" and z[1] == "==" and z[2][0] == "lit" and isinstance(z[2][1], str)}
-                    only_or = all(z[1] in ("==", "||") for z in [y[1]] + list(subterms(y[1])) if z[0] == "bin")
-                    then = y[2]
-                    mk = [z for z in [then] + list(subterms(then)) if z[0] == "call" and z[1].endswith("mk_constant")]
-                    if strs and mk and only_or and then[0] == "ctor":
-                        val = mk[0][2][0]
-                        if val[0] == "lit" and isinstance(val[1], bool) and len(mk) == 1:
-                            table[val[1]] |= strs
         rep.check(table[True] == consts[0] and table[False] == consts[1], "C08-R2", "constants", f"{f.file}:{f.line}",
                   f"true: {sorted(table[True])}, false: {sorted(table[False])}",
                   f"terminal level maps {sorted(table[True])} to true and {sorted(table[False])} to false; README documents {sorted(consts[0])} / {sorted(consts[1])}")
@@ -171,7 +151,13 @@ def run(prog, rep):
         bad = [i for i in sub.instances if i.verdict != "ok" and "single-token" in i.key]
         rep.check(not bad, "C08-R3", "parser/group-unchanged", f"{f.file}:{f.line}", "a parenthesised group re-enters the top level; its tree is returned unchanged",
                   bad[0].detail if bad else "")
-    rep.floor("C08-R3", 3)
+    # the look-ahead of `3` / `V` must skip whitespace, and whitespace skipping must accept every whitespace character (C05-R4 / R5 instances)
+    sub5 = type(rep)("C08z")
+    c05.check_tokenizer(prog, sub5)
+    for i in sub5.instances:
+        if i.rule == "C05-R5" or (i.rule == "C05-R4" and ("arm:3" in i.key or "arm:V" in i.key)):
+            (rep.ok if i.verdict == "ok" else rep.violation if i.verdict == "violation" else rep.unresolved)("C08-R3", "whitespace/" + i.key, i.where, i.detail)
+    rep.floor("C08-R3", 11)
     # ---- R4
     lowlevel.check_primitives(prog, rep, "C08-R4")
     sub = type(rep)("C08y")
